@@ -39,10 +39,8 @@ ASSUMPTIONS = ['the parser is trusted to build the same tree for the `?` text an
                'exception type = consistent refusal), unless the exception is not a PlanningException and plan_query plans '
                'the inlined statement (a crash, not a refusal)',
                'a prepared statement stays prepared: it can be executed any number of times (each time judged against '
-               'the inlined text of that value list) and asked for its parameters after an execution; executing again a '
-               'statement without placeholders is not generated (the planner plans the caller\'s tree in place, the '
-               'second planning of that tree is outside this property), for the same reason the same tree is prepared '
-               'again only when it has placeholders and has not been planned unbound',
+               'the inlined text of that value list, also a statement without placeholders) and asked for its parameters '
+               'after an execution; the same tree is prepared again only when it has placeholders and has not been planned unbound',
                'a SET list naming a column twice loses an assignment in the parser: when a placeholder goes with it the '
                'reported count is judged (n placeholders are in the statement) and nothing further',
                'when both paths refuse to plan (same exception type) the bound tree (utils.fill_query_params on a fresh '
@@ -534,7 +532,7 @@ def judge(case, col):
                 out.append(rec)
         elif kind == 'exec':
             values = op['v']
-            if cur is None or len(values) != cur['n'] or (cur['executed'] and cur['n'] == 0):
+            if cur is None or len(values) != cur['n']:
                 continue
             again = cur['executed']
             summary.append(f'execute {values!r}' + (' (again)' if again else ''))
@@ -649,7 +647,7 @@ def histories(draw, max_ops=8, max_depth=2):
             # on an executed statement: mostly the next prepare; else execute it again / info / wrong count / the caller
             # prepares the same tree object once more
             kind = draw(st.sampled_from(['prepare'] * 6 + (['exec', 'exec', 'info', 'wrong', 'same'] if n >= 1
-                                                           else ['info'])))
+                                                           else ['info', 'exec', 'exec'])))
         else:
             kind = draw(st.sampled_from(['exec'] * 8 + ['info'] * 4 + ['wrong'] * 4 + ['prepare'] * 4
                                         + (['same'] if n >= 1 else [])))
